@@ -72,7 +72,28 @@ def tables_digest():
     return h.hexdigest()[:24]
 
 
+def taint(obj):
+    """a hostile caller: overwrite in place every mutable value a returned message exposes (lists, bytearrays).
+    If the library shares such objects between messages, later results change."""
+    try:
+        for k, v in vars(obj).items():
+            if isinstance(v, list):
+                for j in range(len(v)):
+                    v[j] = 0xA5
+            elif isinstance(v, bytearray):
+                for j in range(len(v)):
+                    v[j] = 0xA5
+    except TypeError:
+        pass
+
+
 def digest(obj):
+    d0 = _digest(obj)
+    taint(obj)
+    return d0
+
+
+def _digest(obj):
     try:
         d = vars(obj)
         attrs = [(k, repr(v)) for k, v in d.items() if not k.startswith("_")]
